@@ -23,6 +23,7 @@ TLC-simulated long scripts.
 """
 import os
 import shutil
+import threading
 import tempfile
 import time
 from vlib import *
@@ -132,17 +133,43 @@ def check(ctx):
     cli = go_build_repo(ctx, "./cmd/testscript", "ts-cli")
     log("[%5.1fs] harness and cmd/testscript built" % (time.time() - ctx.t0))
 
-    # (A) TLC: laws on the reference interpreter + one script per transition of its state graph
-    cases = ctx.path("cases.ndjson")
-    res = tlc(ctx, SPECDIR, "MC_Testscript.tla", "MC_Testscript_gen.cfg", cfg_text=gen_cfg(depth_main, depth_aux, "all"),
-              emit_to=cases, workers=NCPU, timeout=900 if quick else 2400)
-    require_tlc_ok(res, "laws of the statement on the reference interpreter")
-    n_gen = res.emits - 1                       # one header record
-    if n_gen != res.generated:
-        raise NoVerdict("TLC emitted %d cases for %d generated states" % (n_gen, res.generated))
-    log("[%5.1fs] TLC: laws hold in %d states; %d scripts emitted (depth %d/%d)" % (time.time() - ctx.t0, res.distinct, n_gen, depth_main, depth_aux))
-    states_gen, trans_gen = res.distinct, res.generated
-    header = header_of(cases)
+    # (A) TLC: laws on the reference interpreter + one script per transition of its state graph.
+    #     Two generators: the full vocabulary, and the data-flow slice explored one line deeper.
+    flow_depth = 3 if quick else 4
+    gens = [("main", gen_cfg(depth_main, depth_aux, "all"), NCPU if not quick else max(4, NCPU - 4)),
+            ("flow", gen_cfg(flow_depth, 0, "all", slices='{"flow"}'), 4 if quick else 6)]
+    results, errors = {}, []
+
+    def run_gen(name, cfg_text, workers):
+        try:
+            out = ctx.path("cases-%s.ndjson" % name)
+            results[name] = (tlc(ctx, SPECDIR, "MC_Testscript.tla", "MC_Testscript_%s.cfg" % name, cfg_text=cfg_text, emit_to=out,
+                                 workers=workers, timeout=900 if quick else 2400, name="gen_" + name), out)
+        except Exception as e:          # re-raised in the main thread
+            errors.append(e)
+
+    ths = [threading.Thread(target=run_gen, args=g) for g in gens]
+    for t in ths:
+        t.start()
+    for t in ths:
+        t.join()
+    if errors:
+        raise errors[0]
+    # (the counters vlib keeps are not thread safe; recompute them from the run list)
+    ctx.tlc_states = sum(x["distinct"] for x in ctx.tlc_runs)
+    ctx.tlc_transitions = sum(max(x["generated"] - 1, 0) for x in ctx.tlc_runs)
+    n_emitted, gen_info = {}, {}
+    for name, _, _ in gens:
+        res, _ = results[name]
+        require_tlc_ok(res, "laws of the statement on the reference interpreter (%s vocabulary)" % name)
+        n_emitted[name] = res.emits - 1                       # one header record
+        if n_emitted[name] != res.generated:
+            raise NoVerdict("TLC emitted %d cases for %d generated states (%s)" % (n_emitted[name], res.generated, name))
+        gen_info[name] = dict(states=res.distinct, transitions=res.generated)
+    log("[%5.1fs] TLC: laws hold in %d + %d states; %d + %d scripts emitted (full vocabulary depth %d/%d, data-flow slice depth %d)"
+        % (time.time() - ctx.t0, gen_info["main"]["states"], gen_info["flow"]["states"], n_emitted["main"], n_emitted["flow"],
+           depth_main, depth_aux, flow_depth))
+    header = header_of(results["main"][1])
 
     violations, drift, samples, counters = [], [], [], {}
     evals = nontriv = 0
@@ -154,22 +181,26 @@ def check(ctx):
         nontriv += r["distinct_nontrivial"]
         violations.extend(r["violations"])
         drift.extend(r["drift"])
-        samples.extend(r["samples"][:4])
+        samples.extend(r["samples"][:9])
         for k, v in r["counters"].items():
             counters[tag + k] = counters.get(tag + k, 0) + v
-        counters["vocabulary_lines"] = r.get("extra", {}).get("vocabulary_lines", 0)
+        if not tag.startswith("sim"):
+            counters[(tag.rstrip(":") or "main") + "_vocabulary_lines"] = r.get("extra", {}).get("vocabulary_lines", 0)
         return r
 
     wr = work_root(ctx)
     try:
-        out = ctx.path("replay.json")
-        run_driver(ctx, [drv, "-mode", "replay", "-cases", cases, "-out", out, "-work", wr, "-cli", cli, "-climax", str(cli_max)],
-                   timeout=900 if quick else 3000)
-        r = absorb(out, "")
-        if r["counters"].get("cases", 0) != n_gen:
-            raise NoVerdict("driver replayed %d of %d emitted scripts" % (r["counters"].get("cases", 0), n_gen))
-        log("[%5.1fs] %d scripts replayed into RunT, %d into cmd/testscript" % (time.time() - ctx.t0, n_gen, r["counters"].get("cli_runs", 0)))
-        os.remove(cases)
+        for name, _, _ in gens:
+            cases = results[name][1]
+            out = ctx.path("replay-%s.json" % name)
+            run_driver(ctx, [drv, "-mode", "replay", "-cases", cases, "-out", out, "-work", wr, "-cli", cli,
+                             "-climax", str(cli_max if name == "main" else cli_max // 3)], timeout=900 if quick else 3000)
+            r = absorb(out, "" if name == "main" else name + ":")
+            if r["counters"].get("cases", 0) != n_emitted[name]:
+                raise NoVerdict("driver replayed %d of %d emitted scripts (%s)" % (r["counters"].get("cases", 0), n_emitted[name], name))
+            log("[%5.1fs] %s: %d scripts replayed into RunT, %d into cmd/testscript"
+                % (time.time() - ctx.t0, name, n_emitted[name], r["counters"].get("cli_runs", 0)))
+            os.remove(cases)
 
         n_sim = 0
         if not quick:
@@ -204,14 +235,15 @@ def check(ctx):
               "observations of the probe lines incl. a trailing probe (cd, $V, stdout and stderr buffers; it must not run after a failure, stop or skip). "
               "TLC emits one script per transition of the interpreter's state graph: shortest script to every abstract state reachable within "
               "%d lines (ContinueOnError on/off, full profile) resp. %d lines (RequireExplicitExec+RequireUniqueNames+no Condition+only probe; duplicate archive names "
-              "with and without RequireUniqueNames), extended by each of the %d vocabulary lines%s. non-trivial = distinct (configuration, script) holding at least one "
-              "command line (not only blank / comment lines)"
-              % (depth_main, depth_aux, counters.get("vocabulary_lines", 0),
+              "with and without RequireUniqueNames; second initial archive), extended by each of the %d vocabulary lines; the same over the %d-line data-flow "
+              "slice (stdin, exec, output buffers, env, cd, background commands, wait / kill / skip / stop) to %d lines%s. "
+              "non-trivial = distinct (configuration, script) holding at least one command line (not only blank / comment lines)"
+              % (depth_main, depth_aux, counters.get("main_vocabulary_lines", 0), counters.get("flow_vocabulary_lines", 0), flow_depth,
                  "" if quick else "; plus %d finished scripts of up to 9 lines from TLC simulation of the same machine" % n_sim)),
-        samples=samples[:8], exhaustive=True, states=ctx.tlc_states, transitions=ctx.tlc_transitions,
-        generator_states=states_gen, generator_transitions=trans_gen, simulated_scripts=n_sim,
-        traces_validated_against_impl=0, counters=counters, drift=drift[:12], drift_total=counters.get("drift_total", 0) + counters.get("sim:drift_total", 0),
-        cli_runs=counters.get("cli_runs", 0) + counters.get("sim:cli_runs", 0))
+        samples=samples[:12], exhaustive=True, states=ctx.tlc_states, transitions=ctx.tlc_transitions,
+        generators=gen_info, simulated_scripts=n_sim,
+        traces_validated_against_impl=0, counters=counters, drift=drift[:12], drift_total=counters.get("drift_total", 0) + counters.get("flow:drift_total", 0) + counters.get("sim:drift_total", 0),
+        cli_runs=counters.get("cli_runs", 0) + counters.get("flow:cli_runs", 0) + counters.get("sim:cli_runs", 0))
     return conclude(ctx, violations, "model_checking", coverage, ASSUME)
 
 
